@@ -39,6 +39,10 @@ pub struct ProbeCtx<'a> {
     pub prof: &'a Profile,
     pub findings: &'a Findings,
     pub stats: &'a ProbeStats,
+    /// when a probe runs on behalf of C03 / C02, its heap-accounting resp. isolation
+    /// violations are that property's violations (same predicate, other quantifier)
+    pub heap_as: Option<&'static str>,
+    pub iso_as: Option<&'static str>,
 }
 
 impl ProbeCtx<'_> {
@@ -47,7 +51,13 @@ impl ProbeCtx<'_> {
     }
     fn report(&self, hist: &[OpId], viols: &[Viol], op_kind: &str, tkind: &str, extra: &str) {
         for v in viols {
-            self.findings.add(self.prof, hist, v, op_kind, tkind, extra);
+            let heapish = v.oracle.starts_with("heap-") || matches!(v.oracle, "leak-at-end" | "leak" | "close-panic");
+            let isoish = matches!(v.oracle, "other-changed" | "static-bytes");
+            match (self.heap_as, self.iso_as) {
+                (Some(p), _) if heapish => self.findings.add(self.prof, hist, &Viol { prop: p, ..v.clone() }, op_kind, tkind, extra),
+                (_, Some(p)) if isoish => self.findings.add(self.prof, hist, &Viol { prop: p, ..v.clone() }, op_kind, tkind, extra),
+                _ => self.findings.add(self.prof, hist, v, op_kind, tkind, extra),
+            }
         }
     }
 }
